@@ -11,6 +11,7 @@ inductive Beh where
   | always (m : Nat)
   | drop
   | panic
+  | file (code declared : Nat) (actual : Option Nat)   -- response with a file body (`none` = file missing)
 deriving Repr, DecidableEq
 
 structure SReq where
@@ -27,6 +28,11 @@ def parseBeh (s : String) : Beh :=
   if k == "g" && s.contains '-' then
     match ((s.drop 1).toString).splitOn "-" with
     | [m, second] => .getBodyThen (m.toNat?.getD 0) second
+    | _ => .panic
+  else
+  if k == "F" then
+    match ((s.drop 1).toString).splitOn "-" with
+    | [c, d, a] => .file (c.toNat?.getD 0) (d.toNat?.getD 0) (if a == "m" then none else a.toNat?)
     | _ => .panic
   else
   if k == "n" then .normal n else if k == "g" then .getBody n else if k == "a" then .always n
@@ -51,6 +57,7 @@ def reqBytes (r : SReq) : Bytes :=
      else if r.framing.startsWith "d" then s!"content-length: {(r.framing.drop 1).toString}\r\n"
      else if r.framing.startsWith "f" then s!"content-length: {(r.framing.drop 1).toString}\r\nexpect: 100-continue\r\n"
      else if r.framing == "v" then "expect: 100-continue\r\n"
+     else if r.framing == "K" then "Connection: keep-alive\r\n"
      else "") ++ "\r\n"
   str head ++ r.body
 
@@ -79,6 +86,10 @@ def handlerOf (reqs : List SReq) (v : ReqView) : HandlerOut :=
   | .always m => .getBody m
   | .drop => .drop
   | .panic => .panic
+  | .file code declared actual =>
+    let content : Bytes := (List.range (actual.getD 0)).map fun i => (97 + i % 26).toUInt8
+    .normal { code := code, ctype := some (str "application/octet-stream"),
+              body := ⟨some declared, { openFails := actual.isNone, pieces := if content.isEmpty then [] else [content] }⟩ }
 
 def showCall (c : Call) : String :=
   let m := String.fromUTF8! (ByteArray.mk c.view.req.method.toArray)
@@ -129,15 +140,20 @@ def exchangeCheck (reqs : List SReq) (calls : List String) (wire : Bytes) (cut :
   (if multOk then [] else ["handler-run-count"]) ++
   (if bodiesOk then [] else ["body-differs-from-bytes-sent"]) ++
   (if twiceOk then [] else ["second-run-without-complete-body"]) ++
+  -- a response whose body file is missing or shorter than declared is cut off after its head (C08): the wire then ends
+  -- inside that response, and the structural clauses below do not apply (the exact bytes are compared with the model)
+  let faultyFile := reqs.any fun r => match r.beh with
+    | .file _ declared actual => actual.isNone || actual.getD 0 < declared
+    | _ => false
   (match ConnContract.responses (wire.length + 1) wire [] with
-   | none => ["wire-not-a-sequence-of-responses"]
+   | none => if faultyFile then [] else ["wire-not-a-sequence-of-responses"]
    | some rs =>
      let finals := rs.filter fun p => p.code / 100 != 1
      -- I4: the j-th final response belongs to the j-th request
      let matchOk := (finals.zip reqs).all fun (p, r) =>
        let body := p.body
        let mark := str r.path
-       ConnContractInfix mark body || p.code ≥ 400
+       ConnContractInfix mark body || p.code ≥ 400 || (match r.beh with | .file .. => true | _ => false)
      -- I5: nothing after an error / 4xx / 5xx response
      let closedOk := match finals.span (fun p => p.code < 400) with
        | (_, _ :: after) => after.isEmpty
@@ -192,7 +208,9 @@ def sizeCheck (small : Nat) (cache : Bool) (reqs : List SReq) (calls : List Stri
 
 def handle (tag : String) (args : List String) (obs : String) : String :=
   match args with
-  | [small, cache, _sched, reqsS] =>
+  | [small, cache, sched0, reqsS] =>
+    -- `L0:` / `L1:`: the application's logger is dead / stalled — no effect on what the connection must do
+    let _sched := if sched0.startsWith "L0:" || sched0.startsWith "L1:" then (sched0.drop 3).toString else sched0
     match (splitNonEmpty reqsS ";").mapM parseReq, small.toNat? with
     | some reqs, some s =>
       let full := (reqs.map reqBytes).flatten
